@@ -66,10 +66,10 @@ class C62(hc.PProp):
                 return lim + rng.choice([BAND + 1, BAND + 2, -BAND - 1, 200, -200])
             return rng.randint(200, 1500)
         for k in range(rng.randint(3, 8)):
-            t = {'id': index * 100 + k, 'which': rng.choice(['req', 'req', 'resp']), 'style': rng.choice(['one', 'many', 'url']),
+            t = {'id': index * 100 + k, 'which': rng.choice(['req', 'req', 'resp']), 'style': rng.choice(['one', 'many', 'url', 'one', 'many', 'url', 'ws']),
                  'seg': rng.choice(['rand', 'rand', 'whole']), 'pace': rng.choice([0, 0, 100])}
             t['size'] = max(200, size_near(reqlim if t['which'] == 'req' else replim))
-            if t['which'] == 'resp' and t['style'] == 'url':
+            if t['which'] == 'resp' and t['style'] in ('url', 'ws'):
                 t['style'] = 'one'
             txns.append(t)
         plan['txns'] = txns
@@ -91,7 +91,11 @@ class C62(hc.PProp):
                 base = hc.request_head(b'GET', url, base_h)
                 need = t['size'] - len(base)
                 if need >= 12:
-                    if t['style'] == 'url':
+                    if t['style'] == 'ws':     # the excess is whitespace between the fields of the request line (tolerated by relaxed_header_parser)
+                        head = hc.request_head(b'GET', url, base_h + fill_headers(rng, need // 2, 'many')) if need // 2 >= 12 else base
+                        pad = t['size'] - len(head)
+                        head = head.replace(b'GET ', b'GET ' + b' ' * max(0, pad), 1)
+                    elif t['style'] == 'url':
                         url = url + b'?' + b'u' * (need - 1)
                         head = hc.request_head(b'GET', url, base_h)
                     else:
@@ -128,7 +132,7 @@ class C62(hc.PProp):
                 forwarded[m.group(1).decode()] = forwarded.get(m.group(1).decode(), 0) + 1
         nontrivial = 0
         for cv in hc.client_views(hist):
-            m0 = re.search(rb'/z(\d+)', cv.sent_raw[:200])
+            m0 = re.search(rb'/z(\d+)', cv.sent_raw[:70000])
             if not m0:
                 continue
             rid = m0.group(1).decode()
